@@ -32,12 +32,13 @@ VARIABLES l,        \* next line to consume
           cnt,      \* inputs consumed in this stream
           maxabs,   \* largest |input| of this stream (in units of 1/unit)
           cur, prv, \* the answer on the line just consumed, and the one before
+          curm,     \* the mean() getter recorded on that line (<<"n">> if not recorded)
           mst,      \* ghost: machine state (mode "machine")
           pos,      \* ghost: all inputs of this stream so far were positive
           aux,      \* ghost: data that depends on the configuration only (Alma kernel weights), evaluated once per stream
           gap,      \* number of inputs consumed by the last line (answers in between were not recorded if > 1)
           sid       \* stream number
-vars == <<l, hd, win, agg, cnt, maxabs, cur, prv, mst, pos, aux, gap, sid>>
+vars == <<l, hd, win, agg, cnt, maxabs, cur, prv, curm, mst, pos, aux, gap, sid>>
 
 KMem(cfg, mode) == IF mode # "window" THEN 1000000000
                    ELSE IF cfg.k \in {"Rsi", "MyRSI", "Roc"} THEN cfg.n + 1 ELSE cfg.n
@@ -60,7 +61,7 @@ RECURSIVE MFold(_, _, _, _)
 MFold(cfg, m, xs, i) == IF i > Len(xs) THEN m ELSE MFold(cfg, TM_Step(cfg, m, QFrac(xs[i], hd.unit)), xs, i + 1)
 
 Init == /\ l = 1 /\ hd = <<>> /\ win = <<>> /\ agg = AggInit /\ cnt = 0 /\ maxabs = 0
-        /\ cur = <<"n">> /\ prv = <<"n">> /\ aux = <<>> /\ mst = <<>> /\ pos = TRUE /\ gap = 0 /\ sid = 0
+        /\ cur = <<"n">> /\ prv = <<"n">> /\ curm = <<"n">> /\ aux = <<>> /\ mst = <<>> /\ pos = TRUE /\ gap = 0 /\ sid = 0
 
 IsHeader(e) == "cfg" \in DOMAIN e
 Next == /\ l <= Len(Rec)
@@ -68,7 +69,7 @@ Next == /\ l <= Len(Rec)
         /\ LET e == Rec[l] IN
            IF IsHeader(e)
            THEN /\ hd' = e /\ win' = <<>> /\ agg' = AggInit /\ cnt' = 0 /\ maxabs' = 0
-                /\ cur' = <<"n">> /\ prv' = <<"n">> /\ gap' = 0 /\ sid' = sid + 1
+                /\ cur' = <<"n">> /\ prv' = <<"n">> /\ curm' = <<"n">> /\ gap' = 0 /\ sid' = sid + 1
                 /\ mst' = IF e.mode = "machine" THEN TM_Init(e.cfg) ELSE <<>>
                 /\ pos' = TRUE
                 /\ aux' = IF e.cfg.k = "Alma" /\ e.mode = "window" THEN AlmaWeights(e.cfg.n, SigmaOf(e.cfg), OffsetOf(e.cfg)) ELSE <<>>
@@ -77,6 +78,7 @@ Next == /\ l <= Len(Rec)
                 /\ cnt' = cnt + Len(e.xs)
                 /\ maxabs' = MaxAbsSeq(e.xs, 1, maxabs)
                 /\ cur' = e.o /\ prv' = cur /\ gap' = Len(e.xs)
+                /\ curm' = IF "m" \in DOMAIN e THEN e.m ELSE <<"n">>
                 /\ mst' = IF hd.mode = "machine" THEN MFold(hd.cfg, mst, e.xs, 1) ELSE mst
                 /\ pos' = (pos /\ \A i \in 1..Len(e.xs) : e.xs[i] > 0)
                 /\ UNCHANGED <<hd, sid, aux>>
@@ -133,6 +135,15 @@ Report(clause) == /\ Tally("viol")
                   /\ \/ ~TallyUpTo("print." \o ToString(sid), 5)
                      \/ PrintT(<<"VIOL", Prop, clause, sid, l - 1, cnt>>)
 
+(* the mean() getter of the Welford views, where it was recorded *)
+MeanExpected == IF hd.mode = "rolling" /\ agg[1] > 0 THEN RQ(<<agg[2], WMul(WFromInt(agg[1]), WFromInt(U))>>)
+                ELSE IF hd.mode = "window" /\ win # <<>> THEN RQ(QMean(XQ(LastK(win, hd.cfg.n))))
+                ELSE RAny
+MeanVerdict == \/ ~OIsSome(curm)
+               \/ (Tally("mean") /\ LET r == MeanExpected IN
+                                     r[1] = "any" \/ OCloseQ(curm, r[2], QMul(Eps, QMax(QOne, QFrac(maxabs, U)))))
+               \/ Report("mean-tracks-exact")
+
 (* C07 on recorded streams: the range predicate of Ranges.tla on every recorded answer *)
 RangeVerdict == \/ ~OIsSome(cur)
                 \/ (Tally("range." \o hd.cfg.k) /\ RangeOf(hd.cfg, cur, IF gap = 1 THEN prv ELSE <<"n">>, pos))
@@ -151,6 +162,7 @@ Verdict == \/ hd = <<>> \/ cnt = 0
                  ELSE LET r == Expected IN
                       /\ Tally("def." \o r[1])
                       /\ (Within(cur, r) \/ Report("tracks-exact"))
+                      /\ MeanVerdict
 
 Post == /\ TallyDump(TLCGet("stats").generated)
         /\ TLCGet("stats").diameter = Len(Rec) + 1
